@@ -249,6 +249,29 @@ func genG04(repo string, w *Out) error {
 		return fmt.Errorf("basic_auth.go: ProxyAuthorizationHeader is not a string literal")
 	}
 	w.DefStr("auth_header", pahs)
+	// the BasicAuth struct: its fields (the model's AuthenticatedRequest is a pure function of header map and
+	// configured credentials: any further field is state the model does not know)
+	var baFields []string
+	for _, d := range ba.AST.Decls {
+		gd, ok := d.(*ast.GenDecl)
+		if !ok || gd.Tok != token.TYPE {
+			continue
+		}
+		for _, sp := range gd.Specs {
+			ts := sp.(*ast.TypeSpec)
+			if st, ok := ts.Type.(*ast.StructType); ok && ts.Name.Name == "BasicAuth" {
+				for _, f := range st.Fields.List {
+					if len(f.Names) == 0 {
+						baFields = append(baFields, ba.Src(f.Type))
+					}
+					for _, n := range f.Names {
+						baFields = append(baFields, n.Name+" "+ba.Src(f.Type))
+					}
+				}
+			}
+		}
+	}
+	w.DefStrList("basic_auth_struct_fields", baFields)
 	npba, err := ba.Func("NewProxyBasicAuth")
 	if err != nil {
 		return err
@@ -299,6 +322,9 @@ func genG04(repo string, w *Out) error {
 	ar, err := ba.Func("BasicAuth.AuthenticatedRequest")
 	if err != nil {
 		return err
+	}
+	if n := len(ar.Body.List); n != 3 {
+		return fmt.Errorf("AuthenticatedRequest: %d statements, the model transcribes 3 (parse, compare, return true)", n)
 	}
 	if err := newAlpha(ar, "ba", "r", "expectedUser", "expectedPass", "user", "pass", "ok").Need("AuthenticatedRequest conditions", g04IfConds(ba, ar.Body),
 		"!ok || subtle.ConstantTimeCompare([]byte(user), []byte(expectedUser)) != 1 || subtle.ConstantTimeCompare([]byte(pass), []byte(expectedPass)) != 1"); err != nil {
@@ -468,6 +494,8 @@ func genG04(repo string, w *Out) error {
 		!ams.Contains(s, "return topg.ToImmutable(), trace") {
 		return fmt.Errorf("middlewareStack: group construction not in the known shape")
 	}
+	w.DefBool("timeframe_list_reassigned", strings.Contains(hp.Src(ms.Body), "hp.config.AllowTimeFrame =") ||
+		strings.Contains(hp.Src(ms.Body), "hp.config.AllowTimeFrame :="))
 	var order, fgOrder, topRes []string
 	for _, a := range adds {
 		switch {
@@ -934,6 +962,79 @@ func genG04(repo string, w *Out) error {
 		reenters = false
 	}
 	w.DefBool("mitm_session_reenters_handle", reenters)
+
+	// ---- http.Handler variant: where (if at all) is an empty req.URL.Host completed from the Host field,
+	//      relative to modifyRequest?  (the connection handler does it in readRequest, see below)
+	fixBefore, fixAfter := false, false
+	{
+		sh, err := ph.Func("proxyHandler.ServeHTTP")
+		if err != nil {
+			return err
+		}
+		ash := newAlpha(sh, "p", "rw", "req", "outreq")
+		callIdx, fixIdx := -1, -1
+		for i, st := range sh.Body.List {
+			src := ph.Src(st)
+			if ash.Eq("p.handleRequest(rw, outreq)", src) {
+				callIdx = i
+			}
+			if ash.Eq(`if outreq.URL.Host == "" { outreq.URL.Host = outreq.Host }`, src) {
+				fixIdx = i
+			}
+		}
+		if callIdx < 0 {
+			return fmt.Errorf("proxyHandler.ServeHTTP: call of handleRequest not found")
+		}
+		if fixIdx >= 0 && fixIdx < callIdx {
+			fixBefore = true
+		} else if fixIdx >= 0 {
+			return fmt.Errorf("proxyHandler.ServeHTTP: URL.Host is completed after the request was handled")
+		}
+		hr, err := ph.Func("proxyHandler.handleRequest")
+		if err != nil {
+			return err
+		}
+		ahr := newAlpha(hr, "p", "rw", "req", "err", "ctx")
+		modIdx := -1
+		for i, st := range hr.Body.List {
+			src := ph.Src(st)
+			if ahr.HasPrefix(src, "if err := p.modifyRequest(req); err != nil {") {
+				modIdx = i
+			}
+			if ahr.Eq(`if req.URL.Host == "" { req.URL.Host = req.Host }`, src) {
+				if modIdx < 0 {
+					fixBefore = true
+				} else {
+					fixAfter = true
+				}
+			}
+		}
+		if modIdx < 0 {
+			return fmt.Errorf("proxyHandler.handleRequest: modifyRequest statement not found")
+		}
+		// any other assignment to URL.Host in the two functions is a shape the model does not know
+		for _, fd := range []*ast.FuncDecl{sh, hr} {
+			n := strings.Count(ph.Src(fd.Body), ".URL.Host = ")
+			want := 0
+			if fd == sh && fixIdx >= 0 {
+				want = 1
+			}
+			if fd == hr && (fixBefore && fixIdx < 0 || fixAfter) {
+				want = 1
+			}
+			if n != want {
+				return fmt.Errorf("%s: %d assignments to URL.Host, the model knows %d", fd.Name.Name, n, want)
+			}
+		}
+	}
+	w.DefBool("handler_host_fixup_before", fixBefore)
+	w.DefBool("handler_host_fixup_after", fixAfter)
+	// connection handler: readRequest completes URL.Host right after parsing
+	if rr, err := pc.Func("proxyConn.readRequest"); err != nil {
+		return err
+	} else if s := pc.Src(rr.Body); !newAlpha(rr, "p", "req", "err").Contains(s, `if req.URL.Host == "" { req.URL.Host = req.Host }`) {
+		return fmt.Errorf("proxyConn.readRequest: completion of URL.Host from the Host field not found")
+	}
 	w.DefBool("error_response_keeps_challenge", keepsConn)
 	w.DefBool("handler_error_response_keeps_challenge", keepsHandler)
 
